@@ -445,9 +445,8 @@ class Molecules(AtomsProperty):
 
         N = len(s)
         # Sanity check
-        if N < 2:
-            # WTF?
-            print("WARNING: impossible to calculate molecules on single-atom " "system")
+        if N < 1:
+            print("WARNING: impossible to calculate molecules on an empty system")
             return None
 
         # Get the bonds
